@@ -169,13 +169,56 @@ def cells_digest(cpu):
     return h.hexdigest()
 
 
+# targets that depend on each other: the order of assignment is observable
+ORDER_PROGS = [
+    ("DIM za%(1 TO 5)\nzi% = 1\nINPUT zi%, za%(zi%)\nPRINT zi%; za%(1); za%(3)\n", ['3,42'], ' 3  0  42 \r\n'),
+    ("INPUT zx%, zx%\nPRINT zx%\n", ['1,2'], ' 2 \r\n'),
+    ("DIM za&(1 TO 5)\nzi% = 2\nINPUT za&(zi%), zi%, za&(zi%)\nPRINT zi%; za&(2); za&(4)\n", ['7,4,9'], ' 4  7  9 \r\n'),
+    ("TYPE zt\nfa AS INTEGER\nEND TYPE\nDIM zr(1 TO 3) AS zt\nzi% = 1\nINPUT zi%, zr(zi%).fa\nPRINT zi%; zr(1).fa; zr(2).fa\n", ['2,5'],
+     ' 2  0  5 \r\n'),
+    ("DIM zs$(1 TO 3)\nzn% = 1\nINPUT zn%, zs$(zn%), zs$(zn% - 1)\nPRINT zn%; zs$(1); zs$(2); zs$(3)\n", ['3,c,b'], ' 3 bc\r\n'),
+    ("zs\nSUB zs\nDIM zl%(1 TO 4)\nzk% = 1\nINPUT zk%, zl%(zk%), zk%\nPRINT zk%; zl%(1); zl%(2)\nEND SUB\n", ['2,8,1'], ' 1  0  8 \r\n'),
+    ("zq% = 1\nzs zq%\nSUB zs (zp%)\nDIM zl#(1 TO 4)\nINPUT zp%, zl#(zp%)\nPRINT zp%; zl#(1); zl#(3)\nEND SUB\n", ['3,1.5'], ' 3  0  1.5 \r\n'),
+]
+
+
+def run_order(case):
+    st = {'input_statements': 0, 'lines_processed': 0, 'rejected_lines_expected': 0, 'digests_at_reprompt': 0,
+          'order_programs': 0}
+    viol = []
+    shapes = []
+    for i, (text, script, want) in enumerate(ORDER_PROGS):
+        for cfg in rt.CONFIGS6:
+            c = rt.compile_src(text, cfg[0], cfg[1])
+            if c.status != 'ok':
+                viol.append(V(f'C18:rejected:{c.status}:{c.sig or c.err_code}', f'{c.brief()} {c.msg}', text=text))
+                continue
+            # a rejected line first: nothing of it may stick either
+            run = rt.run_module(rt.load_module(c.modbytes), {'input': ['x' + script[0]] + script}, max_ticks=20000)
+            st['input_statements'] += 1
+            st['order_programs'] += 1
+            st['lines_processed'] += 2
+            st['rejected_lines_expected'] += 1
+            st['digests_at_reprompt'] += 1
+            shapes.append(f'order{i}|{rt.cfg_name(cfg)}')
+            outs = [e[1] for e in run.history if e[0] == 'out']
+            if run.outcome != ['halt'] or not outs or outs[-1] != want:
+                viol.append(V('C18:assignment-order', f'[{rt.cfg_name(cfg)}] responses {script}: program printed '
+                              f'{outs[-1] if outs else None!r} and ended {run.outcome}; in-order assignment gives {want!r}',
+                              text=text, script=script))
+    return {'viol': viol, 'stats': st, 'shape': shapes, 'nontrivial': True,
+            'sample': {'program': ORDER_PROGS[0][0], 'responses': ORDER_PROGS[0][1]}}
+
+
 def gen_cases(tier, seed):
     n = 1500 if tier == 'quick' else 20000
     B = 25
-    return [{'seed': seed * 100003 + i, 'n': B} for i in range(0, n, B)]
+    return [{'seed': seed * 100003 + i, 'n': B} for i in range(0, n, B)] + [{'kind': 'order', 'seed': seed}]
 
 
 def run_case(case):
+    if case.get('kind') == 'order':
+        return run_order(case)
     r = random.Random(case['seed'])
     st = {'input_statements': 0, 'lines_processed': 0, 'rejected_lines_expected': 0, 'digests_at_reprompt': 0,
           'classes': []}
